@@ -68,7 +68,8 @@ class C02(Check):
                ('src/fast_ticc/admm/front_end.py', 'admm_optimize_theta')]
     obligations = ['soft_threshold_is_exact_prox', 'lambda_sum_is_class_sum', 'z_update_covers_and_is_block_toeplitz',
                    'z_update_is_classwise_minimiser', 'u_update_is_running_residual', 'x_update_decomposes_right_matrix',
-                   'x_update_eigenvalue_stationarity', 'x_update_orientation_and_scale', 'stopping_rule_is_boyd_residual_test',
+                   'x_update_eigenvalue_stationarity', 'x_update_orientation_and_scale', 'x_update_kkt_from_stationarity_and_orientation',
+                   'stopping_rule_is_boyd_residual_test',
                    'driver_matches_reference_iteration', 'front_end_forwards_parameters']
     obligation_text = {
         'soft_threshold_is_exact_prox': 'for all s, Q>=0, rhoR>0: z = soft_threshold_prox satisfies z>0 => rhoR z = s-Q; z<0 => rhoR z = s+Q; z=0 => |s|<=Q, and equals the merged If-term used as its summary',
@@ -78,7 +79,8 @@ class C02(Check):
         'u_update_is_running_residual': 'u + x - z entrywise',
         'x_update_decomposes_right_matrix': 'the matrix handed to eigh is exactly rho*reinflate(z-u) - S',
         'x_update_eigenvalue_stationarity': 'with q=I: every output eigenvalue t satisfies rho t^2 - d t - 1 = 0 and t > 0 (stationarity of -log det + tr(S Theta) + rho/2 ||Theta-(Z-U)||^2)',
-        'x_update_orientation_and_scale': 'with a symbolic orthogonal 2x2 q: output symmetric and (rho Theta - M) Theta = I',
+        'x_update_orientation_and_scale': 'with a symbolic 2x2 q and symbolic d: the matrix handed to eigh is M, and the output is exactly q diag(t) q^T with t_k the code\'s own eigenvalue map of d_k (orientation q D q^T, scale 1/(2 rho))',
+        'x_update_kkt_from_stationarity_and_orientation': 'algebraic lemma (n=2): Theta = q diag(t) q^T, M = q diag(d) q^T, q orthogonal, rho t^2 - d t - 1 = 0 imply (rho Theta - M) Theta = I, the stationarity condition of the X-step objective',
         'stopping_rule_is_boyd_residual_test': 'should_stop <=> ||x-z|| <= eps_pri and ||rho(z-z_old)|| <= eps_dual with the documented tolerances; the four returned numbers are those',
         'driver_matches_reference_iteration': 'run_admm_optimization == a 15-line reference driver (X(u,z,S), Z(u,x), U(u,x,z); stop test from the 2nd iteration; rho callback only when not converged, rescaling u so that rho*u is preserved); returns x of the last executed iteration',
         'front_end_forwards_parameters': 'admm_optimize_theta hands every user parameter to the driver unchanged',
@@ -112,7 +114,9 @@ class C02(Check):
         for n in ([1, 2, 3] if tier == 'quick' else [1, 2, 3, 4]):
             cfgs.append(Config('x_update_identity_n%d' % n, self.xupdate_identity, {'n': n}, nonlinear=True,
                                witness_every=1))
-        cfgs.append(Config('x_update_orthogonal_n2', self.xupdate_orth, {}, nonlinear=True, prove_timeout_ms=240000))
+        cfgs.append(Config('x_update_orthogonal_n2', self.xupdate_orth, {}, nonlinear=True, prove_timeout_ms=240000,
+                           fork_ite=True, split=1))
+        cfgs.append(Config('x_update_kkt_lemma_n2', self.kkt_lemma, {'n': 2}, nonlinear=True, prove_timeout_ms=240000))
         for L in ([1, 3] if tier == 'quick' else [1, 3, 6]):
             cfgs.append(Config('convergence_L%d' % L, self.convergence, {'L': L}, nonlinear=True, witness_every=2))
         for cb in (False, True):
@@ -257,26 +261,73 @@ class C02(Check):
 
     # 5c
     def xupdate_orth(self, c):
+        """M := q diag(d) q^T is *constructed* from a symbolic orthogonal q and symbolic d (S = -M,
+        Z-U = 0), so that LAPACK's contract M = q diag(d) q^T holds by construction and the only
+        assumptions are the orthogonality equations."""
         Rp = self.R
         n = 2
         rho = c.real('rho')
         c.assume(R(rho) > 0)
-        S = stubs.sym_symmetric(c, 'S', n)
-        ZmU = stubs.sym_symmetric(c, 'A', n)
-        eig = EighStub(c, 'orthogonal')
-        stubs.install_linalg(eigh=eig)
+        d = [c.real('eig_%d' % i) for i in range(n)]
+        q = [[c.real('q_%d_%d' % (i, j)) for j in range(n)] for i in range(n)]
+        for i in range(n):
+            for j in range(i, n):
+                c.assume(rsum([R(q[i][k]) * R(q[j][k]) for k in range(n)]) == (1 if i == j else 0))
+                c.assume(rsum([R(q[k][i]) * R(q[k][j]) for k in range(n)]) == (1 if i == j else 0))
+        Mx = [[core.mk_real(rsum([R(q[i][k]) * R(d[k]) * R(q[j][k]) for k in range(n)])) for j in range(n)]
+              for i in range(n)]
+        S = np.array([[-Mx[i][j] for j in range(n)] for i in range(n)])
+        ZmU = np.zeros((n, n))
+        calls = []
+
+        def eigh(M):
+            calls.append(np.asarray(M))
+            return (np.array(d), np.array(q))
+        stubs.install_linalg(eigh=eigh)
         ok, xnew = guarded(c, 'x_update_orientation_and_scale', Rp.solver.x_update_prox, S, ZmU, rho)
         if not ok:
             return
         c.notes.update({'kind': 'xo'})
-        M = eig.calls[0][0]
+        f = [len(calls) == 1]
+        if f[0]:
+            for i in range(n):
+                for j in range(n):
+                    f.append(R(calls[0][i, j]) == R(Mx[i][j]))
+        # the eigenvalue map t_k(d_k, rho) as the real code computes it, obtained from the same
+        # function on the 1x1 problem (its stationarity rho t^2 - d t - 1 = 0, t > 0 is the
+        # x_update_eigenvalue_stationarity obligation)
+        t = []
+        for k in range(n):
+            one = []
+            stubs.install_linalg(eigh=lambda M, k=k: (np.array([d[k]]), np.array([[1.0]])))
+            out1 = Rp.solver.x_update_prox(np.array([[-d[k]]]), np.zeros((1, 1)), rho)
+            t.append(out1[0])
         Th = Rp.mc.reinflate_matrix(xnew)
+        for i in range(n):
+            for j in range(n):
+                f.append(R(Th[i, j]) == rsum([R(q[i][k]) * R(t[k]) * R(q[j][k]) for k in range(n)]))
+        c.prove('x_update_orientation_and_scale', conj(f))
+
+    def kkt_lemma(self, c, n):
+        """Pure algebra (no code): Theta = q diag(t) q^T, M = q diag(d) q^T, q orthogonal and
+        rho t_k^2 - d_k t_k - 1 = 0 imply (rho Theta - M) Theta = I."""
+        rho = c.real('rho')
+        c.assume(R(rho) > 0)
+        d = [c.real('d_%d' % i) for i in range(n)]
+        t = [c.real('t_%d' % i) for i in range(n)]
+        q = [[c.real('q_%d_%d' % (i, j)) for j in range(n)] for i in range(n)]
+        for i in range(n):
+            c.assume(R(rho) * R(t[i]) * R(t[i]) - R(d[i]) * R(t[i]) - 1 == 0)
+            for j in range(i, n):
+                c.assume(rsum([R(q[i][k]) * R(q[j][k]) for k in range(n)]) == (1 if i == j else 0))
+                c.assume(rsum([R(q[k][i]) * R(q[k][j]) for k in range(n)]) == (1 if i == j else 0))
+        Th = [[rsum([R(q[i][k]) * R(t[k]) * R(q[j][k]) for k in range(n)]) for j in range(n)] for i in range(n)]
+        M = [[rsum([R(q[i][k]) * R(d[k]) * R(q[j][k]) for k in range(n)]) for j in range(n)] for i in range(n)]
         f = []
         for i in range(n):
             for j in range(n):
-                lhs = rsum([(R(rho) * R(Th[i, k]) - R(M[i, k])) * R(Th[k, j]) for k in range(n)])
-                f.append(lhs == (1 if i == j else 0))
-        c.prove('x_update_orientation_and_scale', conj(f))
+                f.append(rsum([(R(rho) * Th[i][k] - M[i][k]) * Th[k][j] for k in range(n)]) == (1 if i == j else 0))
+        c.prove('x_update_kkt_from_stationarity_and_orientation', conj(f))
 
     # 6
     def convergence(self, c, L):
